@@ -46,12 +46,21 @@ import (
 type c08Snap struct {
 	Term    uint64 `json:"term"`
 	Index   uint64 `json:"index"`
-	NoState bool   `json:"no_state,omitempty"` // v7 only: an older snapshot directory without state.bin (as in the fixture)
+	NoState bool   `json:"no_state,omitempty"` // an older, partial snapshot: v7 directory without state.bin (as in the fixture), v8 directory without its <id>.db
 }
 
 type c08Crash struct {
 	Sys string `json:"sys"` // syscall the child is killed before ...
 	K   int    `json:"k"`   // ... its K-th invocation
+}
+
+// c08Synth names a synthesised crash image: the disk just after the rename of an upgrade step
+// with the first Removed entries of the old directory's removal (children before their
+// directory; directory entries in sorted or reverse order) already unlinked.
+type c08Synth struct {
+	Step    string `json:"step"`  // "7to8" (old = snapshots) or "8to10" (old = rsnapshots)
+	Order   string `json:"order"` // "sorted" or "reverse"
+	Removed int    `json:"removed"`
 }
 
 type c08Input struct {
@@ -60,6 +69,7 @@ type c08Input struct {
 	Snaps   []c08Snap  `json:"snaps"`
 	Seed    int64      `json:"seed"`
 	Crash   []c08Crash `json:"crash"`
+	Synth   *c08Synth  `json:"synth,omitempty"`
 }
 
 func (in c08Input) storeKey() string {
@@ -221,6 +231,8 @@ type c08Env struct {
 
 	n7, n8 int // entries below snapshots / below the complete rsnapshots
 
+	synth *c08Synth // set while a synthesised image is being evaluated
+
 	// hashes of the complete files the upgrades produce (learnt from the un-crashed run)
 	h8meta, h8db, h10meta, h10db, h10crc string
 }
@@ -336,6 +348,9 @@ func c08Build(t *testing.T, in c08Input) (*c08Env, error) {
 				os.MkdirAll(dir, 0755)
 				if err := writeMeta(dir, c08Meta(id, sn.Index, sn.Term)); err != nil {
 					return nil, err
+				}
+				if sn.NoState && id != e.newestID {
+					continue
 				}
 				if err := os.WriteFile(filepath.Join(root, id+".db"), content, 0644); err != nil {
 					return nil, err
@@ -593,6 +608,7 @@ var c08SysThorough = append(append([]string{}, c08SysQuick...), "write", "pwrite
 func (e *c08Env) emit(w *vWriter, path []c08Crash, obs []c08Obs, f c08Final) {
 	in := e.in
 	in.Crash = append([]c08Crash{}, path...)
+	in.Synth = e.synth
 	nontriv := false
 	if len(obs) > 0 {
 		o := obs[0]
@@ -602,7 +618,13 @@ func (e *c08Env) emit(w *vWriter, path []c08Crash, obs []c08Obs, f c08Final) {
 		nontriv = first && !last
 	}
 	c := VCase{Input: in, Coq: e.coqCase(obs, f), Nontrivial: nontriv, Key: fmt.Sprintf("%s crash=%v", e.in.storeKey(), path),
-		Tags: []string{"kind=" + e.in.Kind, fmt.Sprintf("crashes=%d", len(path)), fmt.Sprintf("snaps=%d", len(e.in.Snaps))}}
+		Tags: []string{"kind=" + e.in.Kind, fmt.Sprintf("crashes=%d", len(obs)), fmt.Sprintf("snaps=%d", len(e.in.Snaps))}}
+	if e.synth != nil {
+		c.Key = fmt.Sprintf("%s synth=%+v", e.in.storeKey(), *e.synth)
+		c.Tags = append(c.Tags, "synthesised:"+e.synth.Step+":"+e.synth.Order)
+	} else if len(path) > 0 {
+		c.Tags = append(c.Tags, "killed:"+path[0].Sys)
+	}
 	at := "none"
 	if len(obs) > 0 {
 		o := obs[len(obs)-1]
@@ -629,6 +651,10 @@ func (e *c08Env) emit(w *vWriter, path []c08Crash, obs []c08Obs, f c08Final) {
 		c.Tags = append(c.Tags, "at:"+at)
 	}
 	what := fmt.Sprintf("%s, killed before %v (crash state: %s)", e.in.storeKey(), path, at)
+	if e.synth != nil {
+		what = fmt.Sprintf("%s, crash after the %s rename with the first %d entries of the old directory removed in %s order (crash state: %s)",
+			e.in.storeKey(), e.synth.Step, e.synth.Removed, e.synth.Order, at)
+	}
 	switch {
 	case !f.Open:
 		c.OracleFail = what + ": next start fails: " + f.Err
@@ -706,12 +732,19 @@ func c08Store(t *testing.T, w *vWriter, in c08Input, syscalls []string, second f
 		return true
 	}
 
+	if in.Synth != nil {
+		if err := e.synthRun(w, *in.Synth); err != nil {
+			t.Fatalf("replaying %+v: %v", *in.Synth, err)
+		}
+		return
+	}
 	if len(in.Crash) > 0 {
 		if !run(in.Crash) {
 			t.Logf("crash path %v: the child was not killed (ran to completion)", in.Crash)
 		}
 		return
 	}
+	e.synthAll(t, w)
 	n := 0
 	for _, sys := range syscalls {
 		for k := 1; k < 400; k++ {
@@ -732,6 +765,146 @@ func c08Store(t *testing.T, w *vWriter, in c08Input, syscalls []string, second f
 	}
 }
 
+// ---------------------------------------------------------------- synthesised images of the old-directory removal
+
+// c08RemovalSeq lists what os.RemoveAll(root) unlinks, children before their directory, the
+// entries of every directory in sorted or reverse order; the root itself ("") comes last.
+func c08RemovalSeq(root string, reverse bool) []string {
+	var out []string
+	var walk func(rel string)
+	walk = func(rel string) {
+		ents, _ := os.ReadDir(filepath.Join(root, rel))
+		names := make([]string, 0, len(ents))
+		isDir := map[string]bool{}
+		for _, en := range ents {
+			names = append(names, en.Name())
+			isDir[en.Name()] = en.IsDir()
+		}
+		sort.Strings(names)
+		if reverse {
+			for i, j := 0, len(names)-1; i < j; i, j = i+1, j-1 {
+				names[i], names[j] = names[j], names[i]
+			}
+		}
+		for _, n := range names {
+			if isDir[n] {
+				walk(filepath.Join(rel, n))
+			}
+			out = append(out, filepath.Join(rel, n))
+		}
+	}
+	walk("")
+	return append(out, "")
+}
+
+// synthBase builds, with the real upgrade functions, the disk as it is just after the rename
+// of the given step and before the removal of its old directory starts.
+func (e *c08Env) synthBase(step string) (string, error) {
+	logger := log.New(io.Discard, "", 0)
+	base := filepath.Join(e.base, "synth-"+step)
+	if c08Exists(base) {
+		return base, nil
+	}
+	if err := e.reset(); err != nil {
+		return "", err
+	}
+	old7, old8, dir10 := filepath.Join(e.raft, "snapshots"), filepath.Join(e.raft, "rsnapshots"), filepath.Join(e.raft, "wsnapshots")
+	if e.in.Kind == "v7" {
+		if err := Upgrade7To8(old7, old8, logger); err != nil {
+			return "", err
+		}
+	}
+	if step == "7to8" {
+		// the rename is done, the old directory is still complete
+		if err := c08CopyDir(filepath.Join(e.tmpl, "snapshots"), old7); err != nil {
+			return "", err
+		}
+		return base, c08CopyDir(e.raft, base)
+	}
+	saved := filepath.Join(e.base, "synth-rsnapshots")
+	if err := c08CopyDir(old8, saved); err != nil {
+		return "", err
+	}
+	// let the real Upgrade8To10 build and serialise its plan without executing it: with a
+	// non-empty directory in the plan file's place WriteToFile's final rename fails
+	planPath := filepath.Join(e.raft, upgrade8To10Plan)
+	os.MkdirAll(filepath.Join(planPath, "x"), 0755)
+	uerr := Upgrade8To10(old8, dir10, logger)
+	planJSON, rerr := os.ReadFile(planPath + ".tmp")
+	os.RemoveAll(planPath)
+	os.Remove(planPath + ".tmp")
+	if rerr != nil {
+		return "", fmt.Errorf("no plan serialised (Upgrade8To10: %v)", uerr)
+	}
+	if err := Upgrade8To10(old8, dir10, logger); err != nil {
+		return "", err
+	}
+	if err := c08CopyDir(saved, old8); err != nil {
+		return "", err
+	}
+	if err := os.WriteFile(planPath, planJSON, 0644); err != nil {
+		return "", err
+	}
+	return base, c08CopyDir(e.raft, base)
+}
+
+// synthRun evaluates one synthesised image.
+func (e *c08Env) synthRun(w *vWriter, sy c08Synth) error {
+	base, err := e.synthBase(sy.Step)
+	if err != nil {
+		return err
+	}
+	oldName := "snapshots"
+	if sy.Step == "8to10" {
+		oldName = "rsnapshots"
+	}
+	seq := c08RemovalSeq(filepath.Join(base, oldName), sy.Order == "reverse")
+	if sy.Removed > len(seq) {
+		return fmt.Errorf("only %d entries to remove", len(seq))
+	}
+	if err := c08CopyDir(base, e.raft); err != nil {
+		return err
+	}
+	for _, rel := range seq[:sy.Removed] {
+		if err := os.Remove(filepath.Join(e.raft, oldName, rel)); err != nil {
+			return err
+		}
+	}
+	e.synth = &sy
+	defer func() { e.synth = nil }()
+	e.emit(w, nil, []c08Obs{e.abs(e.raft)}, e.restart())
+	return nil
+}
+
+// synthAll: every prefix of the old-directory removal of both upgrade steps, in both orders.
+func (e *c08Env) synthAll(t *testing.T, w *vWriter) {
+	steps := []string{"8to10"}
+	if e.in.Kind == "v7" {
+		steps = []string{"7to8", "8to10"}
+	}
+	for _, step := range steps {
+		base, err := e.synthBase(step)
+		if err != nil {
+			e.synth = &c08Synth{Step: step}
+			e.emit(w, nil, nil, c08Final{Err: "cannot reach the state after the " + step + " rename with the real code: " + err.Error()})
+			e.synth = nil
+			continue
+		}
+		oldName := "snapshots"
+		if step == "8to10" {
+			oldName = "rsnapshots"
+		}
+		n := len(c08RemovalSeq(filepath.Join(base, oldName), false))
+		for _, order := range []string{"sorted", "reverse"} {
+			for j := 0; j <= n; j++ {
+				if err := e.synthRun(w, c08Synth{Step: step, Order: order, Removed: j}); err != nil {
+					t.Fatalf("synthesising %s/%s/%d: %v", step, order, j, err)
+				}
+			}
+		}
+	}
+}
+
 // ---------------------------------------------------------------- stores
 
 func c08Corpus() []c08Input {
@@ -741,6 +914,9 @@ func c08Corpus() []c08Input {
 		{Kind: "v8", Snaps: []c08Snap{{Term: 2, Index: 18}}, Seed: 3},
 		{Kind: "v8", Snaps: []c08Snap{{Term: 2, Index: 30}, {Term: 3, Index: 7}, {Term: 2, Index: 41}}, Seed: 4}, // newest by term, not by index
 		{Kind: "v7", Snaps: []c08Snap{{Term: 1, Index: 5, NoState: true}, {Term: 2, Index: 9}}, Seed: 5},
+		{Kind: "v7", Snaps: []c08Snap{{Term: 2, Index: 9}, {Term: 1, Index: 5}}, Seed: 6},                        // two complete snapshots, the newest first
+		{Kind: "v7", Snaps: []c08Snap{{Term: 1, Index: 40}, {Term: 2, Index: 3, NoState: true}, {Term: 2, Index: 12}}, Seed: 7},
+		{Kind: "v8", Snaps: []c08Snap{{Term: 4, Index: 2}, {Term: 3, Index: 90, NoState: true}}, Seed: 8},        // older v8 snapshot without its database
 	}
 }
 
@@ -779,11 +955,13 @@ func TestVerif_C08(t *testing.T) {
 		}
 		return
 	}
-	// quick: both fixtures and the generated three-snapshot v8 directory
+	// quick: every hand-picked node gets the synthesised removal images; the kill enumeration
+	// runs on both fixtures, the three-snapshot v8 directory and the two-snapshot v7 directory
 	for i, in := range c08Corpus() {
-		if i == 2 || i == 4 {
-			continue
+		sys := c08SysQuick
+		if i == 2 || i == 4 || i == 6 || i == 7 {
+			sys = nil
 		}
-		c08Store(t, w, in, c08SysQuick, func(n int) bool { return n%7 == 0 })
+		c08Store(t, w, in, sys, func(n int) bool { return n%7 == 0 })
 	}
 }
